@@ -214,11 +214,13 @@ def scenario(run, rng, origin, chain, final_mode, pv, hook_log):
                         conn.disconnect(immediate=queue_before_fault)
                 return fn
             fn = make(h)
+            # (the keyword is left out when it has its default value)
+            kw_e = {'early': h['early']} if h['early'] or \
+                rng.random() < 0.3 else {}
             if rng.random() < 0.5:
-                conn.register_exception_handler(fn, *h['types'],
-                                                early=h['early'])
+                conn.register_exception_handler(fn, *h['types'], **kw_e)
             else:
-                conn.exception_handler(*h['types'], early=h['early'])(fn)
+                conn.exception_handler(*h['types'], **kw_e)(fn)
             if h['early']:
                 effective.insert(0, h)
             else:
@@ -319,6 +321,11 @@ def scenario(run, rng, origin, chain, final_mode, pv, hook_log):
             bad('routing/reraise', 'exception %s re-raised from the thread' %
                 ('was not' if exp_reraise else 'was'), hook=reraised[:2],
                 expected_reraise=exp_reraise)
+        elif exp_reraise and not reraised[0].startswith(exp_recorded + ':'):
+            # what escapes the thread must be the (last) exception itself
+            bad('routing/reraised-another-exception', 'the exception that '
+                'escaped the thread is not the one that was routed',
+                hook=reraised[:2], expected=exp_recorded)
         if not reconnects:
             if state['eof'].get(0) is not True:
                 bad('containment/not-closed', 'the connection was not closed '
